@@ -672,6 +672,8 @@ func (w *World) IdleCheck() {
 			sig := "unfreed-at-idle"
 			if live < want {
 				sig = "freed-while-live"
+			} else if !w.Strict {
+				return // leaks are judged by C07/C17, not by every property using the engine
 			}
 			w.Failf(sig, "instance is idle (no iterator open, collection settled) but the allocator holds %d live blocks; %d physical versions account for %d", live, len(w.phys), want)
 		}
